@@ -429,6 +429,8 @@ func (c *Ctx) callFuncRef(st *State, x *ast.CallExpr, fr FuncRef) Val {
 		lit := fr.Lit.(*ast.FuncLit)
 		sig := c.typeOf(lit).(*types.Signature)
 		args := c.evalArgs(st, x, sig)
+		c.closureDepth++
+		defer func() { c.closureDepth-- }()
 		return c.inlineBody(st, lit.Type, lit.Body, nil, nil, args, sig, x.Pos())
 	}
 	if fr.Obj != nil {
